@@ -38,7 +38,7 @@ class Probe:
                 probe.short.append((sid, pos, size, len(b), (getattr(cmd, 'first_address', None), getattr(cmd, 'value', None))))
             return b
 
-        def mapper(response, sensors):
+        def mapper(response, sensors, *more, **kw):
             cmd = response.command
             first, count = getattr(cmd, 'first_address', None), getattr(cmd, 'value', None)
             if first is not None and count is not None and type(cmd).__name__.startswith('Modbus'):
@@ -51,7 +51,7 @@ class Probe:
                             probe.static.append((s.id_, first, count, s.offset, n))
                         if type(s).__name__ == 'EnumBitmap22':
                             pass
-            return probe.orig_map(response, sensors)
+            return probe.orig_map(response, sensors, *more, **kw)
         gp.ProtocolResponse.read = read
         Inverter._map_response = staticmethod(mapper)
         return self
@@ -196,6 +196,36 @@ def job_busy(j):
     return n, res
 
 
+def job_single_reads(j):
+    """read_sensor(id) for every listed id and read_setting(id) for every setting of a configured object: the value is
+    decoded from the registers that single request fetched, never from beyond the end of its answer."""
+    cfg, = j
+    out = {}
+    n = 0
+    r = make_rig(cfg, 'udp')
+    inv = r.inv
+    if r.call(inv.read_device_info)[0] != 'ok':
+        return 0, []
+    r.call(inv.read_runtime_data)
+    items = [('read_sensor', s.id_) for s in world.listed(inv)] + [('read_setting', s.id_) for s in inv.settings()]
+    for fn, sid in items:
+        with Probe() as p:
+            r.call(getattr(inv, fn), sid)
+        n += 1
+        for _, pos, size, got, win in p.short:
+            if ('C14', f'reads-inside-answer/{cfg["family"]}/{sid}') in _known():
+                continue
+            key = f'reads-inside-answer/{cfg["family"]}/{fn}/{sid}'
+            out.setdefault(key, []).append(dict(key=key, clause='reads-inside-answer', replay=dict(cfg=cfg, transport='udp', singles=True),
+                                                detail=dict(cause=f'{fn}({sid!r}): read {size} bytes at payload position {pos}, got {got} '
+                                                                  f'(the request fetched {win[1]} registers from {win[0]})')))
+    res = []
+    for key, lst in out.items():
+        lst[0]['n'] = len(lst)
+        res.append(lst[0])
+    return n, res
+
+
 def job_overlapping_polls(j):
     """Two polls of one object overlap: the second is started when the inverter has seen k requests of the first, for every
     k - on a fresh object (the capability fallbacks happen while both are under way) and on a settled one.  Both polls
@@ -281,6 +311,10 @@ def run(tier, seed, rep):
     for n, res in pmap(job_busy, [(c,) for c in busy_cfgs]):
         nbusy += n
         rep.add_many(res)
+    nsingle = 0
+    for n, res in pmap(job_single_reads, [(c,) for c in busy_cfgs]):
+        nsingle += n
+        rep.add_many(res)
     novl = 0
     ovl_cfgs = busy_cfgs + [dict(family='ET', tag='ETU', power=15000, refused=rf, battery_mode=2) for rf in (('battery',), ('mppt',), ('battery2', 'meter_ext2'))] + \
         [dict(family='DT', tag='DTU', power=5000, refused=('meter',), battery_mode=0)]
@@ -310,7 +344,7 @@ def run(tier, seed, rep):
         states |= sts
         rep.add_many(res)
     cov = dict(api_session_histories=_api['histories'], api_session_states=_api['states'], states=len(states), transitions=reads, executions=total, traces_validated_against_impl=total,
-               configurations=total, dynamic_histories=ndyn, polls_with_one_request_rejected=nbusy, overlapping_poll_pairs=novl, instrumented_reads=reads, exhaustive=True,
+               configurations=total, dynamic_histories=ndyn, polls_with_one_request_rejected=nbusy, overlapping_poll_pairs=novl, single_reads_probed=nsingle, instrumented_reads=reads, exhaustive=True,
                bound='every model configuration of C15 (tags x rated power x refused subsets x battery) x every sensor of '
                      'every block; each ProtocolResponse.read is observed (position, requested, returned) and cross-checked '
                      'with the static sensor-span-versus-request-window computation',
@@ -330,6 +364,9 @@ def replay(r):
         return out
     cfg = r['cfg']
     cfg['refused'] = tuple(cfg['refused'])
+    if r.get('singles'):
+        n, res = job_single_reads((cfg,))
+        return dict(reads=n, violations=[('reads-inside-answer', v['key']) for v in res])
     if 'overlap' in r:
         n, res = job_overlapping_polls((cfg,))
         return dict(pairs=n, violations=[('reads-inside-answer', v['key']) for v in res])
